@@ -10,7 +10,7 @@ from hypothesis import strategies as st
 
 from tcv import values
 
-TASK_NAMES = ['a', 'xa', 'b', 'train_x', 'n', 'xn', 'c', 'd', 'ax', 'e', 'g', 'm']
+TASK_NAMES = ['a', 'xa', 'b', 'train_x', 'n', 'xn', 'c', 'd', 'ax', 'e', 'g', 'm', 'load_task']
 PATTERN_NAMES = ['p_a', 'p_b', 'p_xa']
 GROUPS = [None, None, 'g', 'xg', 'g:h']
 MODULE_NAMES = ['alpha', 'beta', 'gamma', 'delta']
